@@ -13,10 +13,14 @@ What is proved
      operations (since fix d4da6a2 Policy.blockAccount/unblockAccount mark the committee outdated; before it
      the witness history below made a restarted replica diverge — it is kept as regression example:
      neo_restart_regression_witness shows the two replicas now agree).
+  3b. whitelist_cache_not_coherent_witness / whitelist_cache_coherent_partial — the whitelisted-fee list of Policy
+     (separate component, Model/Ledger/Whitelist.lean) is NOT restart-transparent as written: re-setting the fee of
+     an already whitelisted method leaves the cache stale (known finding policy-whitelist-fee-update-restart).
   4. map_ranges_classified — every iteration over a Go map found by the extractor in the consensus-critical
      packages is classified (regenerated table, `decide`).
 -/
 import NeoModel.Proofs.LedgerAdequate
+import NeoModel.Proofs.LedgerWhitelist
 import NeoModel.Generated.MapRanges
 namespace NeoModel.Ledger
 
@@ -186,6 +190,30 @@ example : (applyBlock wCfg (genesisStorage wCfg wHolder) (genesisCaches wCfg wHo
     [{ signers := [.key 3], committee := some (2, [1, 0]), op := .setFeePerByte 777, oog := false }]).2.1.policy.feePerByte = 777 := by decide
 
 end Natives
+
+-- ---------------------------------------------------------------------------------------------
+-- whitelisted fees (Policy.setWhitelistFeeContract & co), a component of its own
+
+namespace Whitelist
+
+/-- (C01 is violated by the code as written) Set the fee of method (contract 1, method 0) to 0, then to 5000000:
+    the running node keeps charging 0 (cache) while storage — hence any node restarted afterwards — says 5000000. -/
+theorem whitelist_cache_not_coherent_witness :
+    chargedFee (run empty [.set (1, 0) 0, .set (1, 0) 5000000]) (1, 0) = some 0 ∧
+    storedFee (run empty [.set (1, 0) 0, .set (1, 0) 5000000]) (1, 0) = some 5000000 ∧
+    chargedFee (run empty [.set (1, 0) 0, .set (1, 0) 5000000, .restart]) (1, 0) = some 5000000 := by decide
+
+/-- (C01, cache_coherent for the whitelisted fees, partial) As long as no `set` aims at a key that is already
+    cached, cache and storage answer every lookup alike after any sequence of set/remove/clean/restart.
+    FULL statement (false, see the witness): without `freshSets`. Missing in the code: setWhitelistFeeContract
+    does not overwrite an existing cache entry (policy.go: `if !ok { Insert }`). -/
+theorem whitelist_cache_coherent_partial (s : State) (ops : List Op) (h : Coherent s) (hf : freshSets s ops = true) :
+    Coherent (run s ops) := run_coherent ops s h hf
+
+example : freshSets empty [.set (1, 0) 7, .set (2, 0) 9, .remove (1, 0), .set (1, 0) 8, .clean 2, .restart] = true ∧
+    chargedFee (run empty [.set (1, 0) 7, .set (2, 0) 9, .remove (1, 0), .set (1, 0) 8, .clean 2, .restart]) (1, 0) = some 8 := by decide
+
+end Whitelist
 
 -- ---------------------------------------------------------------------------------------------
 -- generated-fact obligation: iteration over Go maps
